@@ -53,3 +53,20 @@ impl DSU {
         self.sz[v]
     }
 }
+
+/// Verification hooks: read-only view of the parent forest (no path compression), so that forest depth
+/// can be observed from outside.
+#[cfg(feature = "verif")]
+impl DSU {
+    pub fn verif_len(&self) -> usize {
+        self.p.len()
+    }
+
+    pub fn verif_parent(&self, v: usize) -> usize {
+        self.p[v]
+    }
+
+    pub fn verif_size_raw(&self, v: usize) -> usize {
+        self.sz[v]
+    }
+}
